@@ -85,6 +85,12 @@ def handle : List String → String
         (if parent == "none" then none else some (cps parent)) (cps s) with
     | none => "KeyError"
     | some r => showL r
+  | ["fmtlang", lang, fn, cdataArg, parent, s] =>
+    -- Formatter(language=lang, fn, cdata_containing_tags=cdataArg): lang = none | - (empty string) | code points
+    let l : Option PStr := if lang == "none" then none else some (cps lang)
+    let arg : Option (List PStr) := if cdataArg == "none" then none else some ((splitNE ";" cdataArg).map cps)
+    let e := mkFormatterLang BS.Gen.C09.htmlDefaultCdata l fn.toNat! arg
+    showL (formatterSubstitute T X e (if parent == "none" then none else some (cps parent)) (cps s))
   | ["fmtattr", reg, named, name, key, kind, v] =>
     match findFormatter (regOf reg) (named == "1") (cps name) with
     | none => "no-formatter"
